@@ -158,5 +158,9 @@ def obj_spec(rng, cls, path_len=1, half_init=0.0, pixel_kind=None):
             spec["pos"] = path(rng, path_len) if (path_len > 1 or rng.random() < 0.5) else vec3(rng)
             if rng.random() < 0.8:
                 n_rot = path_len if rng.random() < 0.7 else 1
+                if path_len > 2 and rng.random() < 0.25:
+                    n_rot = rng.randint(2, path_len - 1)  # shorter than the position path: edge-padded at init
                 spec["rot"] = rotvecs(rng, n_rot)
+                if path_len > 2 and n_rot == path_len and rng.random() < 0.15:
+                    spec["pos"] = path(rng, rng.randint(2, path_len - 1))  # ... or the position path is shorter
     return spec
